@@ -13,7 +13,7 @@ def run(ctx):
     nrand = 300 if ctx.tier == "quick" else 6000
     maxlen = 12
     L = 2 * maxlen + 2
-    schemes = vers.pick_schemes(r, L, want=3 if ctx.tier == "quick" else 6)
+    schemes = vers.pick_schemes(r, L, want=3 if ctx.tier == "quick" else 6, always=("SemverVersion", "PypiVersion"))
     ctx.say("schemes:", [s.name for s in schemes])
     # ---- cases: (pattern, probes)
     cases = []
@@ -44,6 +44,8 @@ def run(ctx):
     diffs, violations = [], []
     nontrivial = set()
     samples = []
+    aliases = {s.name: {p: vers.alias(s.version(p)) for p in range(len(s.lad))} for s in schemes}
+    ctx.say("alias spellings available:", {k: sum(1 for x in v.values() if x is not None) for k, v in aliases.items()})
     for s in schemes:
         rc = vers.range_class_for(s.cls)
         for ci, (pat, probes) in enumerate(cases):
@@ -59,8 +61,14 @@ def run(ctx):
                 except Exception as e:  # noqa
                     violations.append(dict(kind="counterexample", stage="search", what=f"building a well-formed range raised {e!r}",
                                            inputs=dict(scheme=s.name, constraints=[str(c) for c in shuffled])))
-            for p in probes:
+            for p0 in probes + [-q for q in probes if q % 2 == 0]:
+                # a negative probe is the same position under a different spelling (an equal version)
+                p = abs(p0)
                 v = s.version(p)
+                if p0 < 0:
+                    v = aliases[s.name].get(p)
+                    if v is None:
+                        continue
                 got = vers.res_bool(lambda: vc.contains_version(v, cons))
                 evals += 1
                 m = model[f"contains {t} {p}"]
